@@ -17,12 +17,13 @@ def one(pid, m):
         sh("rsync -a --exclude .git /repo/ %s/repo/" % root)
         sh("rsync -a --exclude .git --exclude .build --exclude .work --exclude replays --exclude evidence --exclude seeded /verif/ %s/verif/" % root)
         os.makedirs(root + "/verif/replays", exist_ok=True)
-        path = os.path.join(root, "repo", m["file"])
-        src = open(path).read()
-        new, c = re.subn(m["pattern"], lambda _m: m["replacement"], src, count=m.get("count", 1), flags=re.S)
-        if c < 1:
-            return m["name"], "DID-NOT-APPLY"
-        open(path, "w").write(new)
+        for part in [m] + m.get("also", []):
+            path = os.path.join(root, "repo", part["file"])
+            src = open(path).read()
+            new, c = re.subn(part["pattern"], lambda _m: part["replacement"], src, count=part.get("count", 1), flags=re.S)
+            if c < 1:
+                return m["name"], "DID-NOT-APPLY (%s)" % part["file"]
+            open(path, "w").write(new)
         outs = []
         env = dict(os.environ, VERIF_REPO=root + "/repo")
         for chk in m.get("checks", [pid]):
